@@ -18,7 +18,8 @@ Inductive pctx :=
 | XTryXB (c : pctx) (p : hpat) (h : stmt)
 | XTryXH (b : stmt) (p : hpat) (c : pctx)
 | XTryFB (c : pctx) (f : stmt)
-| XTryFF (b : stmt) (c : pctx).
+| XTryFF (b : stmt) (c : pctx)
+| XWithVar (n : nat) (c : pctx).
 
 Fixpoint plug (c : pctx) (s : stmt) : stmt :=
   match c with
@@ -30,36 +31,38 @@ Fixpoint plug (c : pctx) (s : stmt) : stmt :=
   | XTryXH b p c => STryExcept b p (plug c s)
   | XTryFB c f => STryFinally (plug c s) f
   | XTryFF b c => STryFinally b (plug c s)
+  | XWithVar n c => SWithVar n (plug c s)
   end.
 
-Lemma denote_cong E a : forall k1 k2,
-  (forall c tr, ref E (k1 c) tr = ref E (k2 c) tr) ->
-  forall tr, ref E (denote a k1) tr = ref E (denote a k2) tr.
+Lemma denote_cong E a : forall v k1 k2,
+  (forall c v' tr, ref E (k1 c v') tr = ref E (k2 c v') tr) ->
+  forall tr, ref E (denote a v k1) tr = ref E (denote a v k2) tr.
 Proof.
-  induction a as [|n|y|b IHb|n|e|a IHa b IHb|b IHb p h IHh|b IHb f IHf]; intros k1 k2 H tr; simpl; auto.
-  - destruct (youtcome E y) as [[v|e]|]; simpl; auto.
-  - destruct (ref E (denote b top) tr) as [tr' [[v|e]|]]; simpl; auto.
-  - apply IHa. intros [| |e] tr'; auto.
-  - apply IHb. intros [| |e] tr'; auto. destruct (matches p e); simpl; auto.
-  - apply IHb. intros c tr'. apply IHf. intros [| |e] tr''; auto.
+  induction a as [|n|y|b IHb|n|e|a IHa b IHb|b IHb p h IHh|b IHb f IHf|n| |n b IHb];
+    intros v k1 k2 H tr; simpl; auto.
+  - destruct (youtcome E y) as [[x|e]|]; simpl; auto.
+  - destruct (ref E (denote b v (fun c _ => top c)) tr) as [tr' [[x|e]|]]; simpl; auto.
+  - apply IHa. intros [| |e] v' tr'; auto.
+  - apply IHb. intros [| |e] v' tr'; auto. destruct (matches p e); simpl; auto.
+  - apply IHb. intros c v' tr'. apply IHf. intros [| |e] v'' tr''; auto.
 Qed.
 
 Lemma plug_cong E s1 s2 :
-  (forall k tr, ref E (denote s1 k) tr = ref E (denote s2 k) tr) ->
-  forall c k tr, ref E (denote (plug c s1) k) tr = ref E (denote (plug c s2) k) tr.
+  (forall v k tr, ref E (denote s1 v k) tr = ref E (denote s2 v k) tr) ->
+  forall c v k tr, ref E (denote (plug c s1) v k) tr = ref E (denote (plug c s2) v k) tr.
 Proof.
-  intros H c. induction c as [|c IH b|a c IH|c IH|c IH p h|b p c IH|c IH f|b c IH]; intros k tr; simpl; auto.
-  - apply denote_cong. intros [| |e] tr'; auto.
+  intros H c. induction c as [|c IH b|a c IH|c IH|c IH p h|b p c IH|c IH f|b c IH|n c IH]; intros v k tr; simpl; auto.
+  - apply denote_cong. intros [| |e] v' tr'; auto.
   - rewrite IH. reflexivity.
-  - apply denote_cong. intros [| |e] tr'; auto. destruct (matches p e); simpl; auto.
-  - apply denote_cong. intros c' tr'. apply IH.
+  - apply denote_cong. intros [| |e] v' tr'; auto. destruct (matches p e); simpl; auto.
+  - apply denote_cong. intros c' v' tr'. apply IH.
 Qed.
 
 Lemma failed_await_is_raise_ref E i e :
   child_out E i = Some (OExc e) ->
-  forall c k tr, ref E (denote (plug c (SYield (YFut i))) k) tr = ref E (denote (plug c (SRaise e)) k) tr.
+  forall c v k tr, ref E (denote (plug c (SYield (YFut i))) v k) tr = ref E (denote (plug c (SRaise e)) v k) tr.
 Proof.
-  intros H. apply plug_cong. intros k tr. simpl. rewrite H. reflexivity.
+  intros H. apply plug_cong. intros v k tr. simpl. rewrite H. reflexivity.
 Qed.
 
 Theorem failed_await_is_raise c i e pre s :
@@ -72,7 +75,7 @@ Proof.
   intros H w1 w2 Q1 Q2.
   pose proof (dec_is_reference _ pre s Q1) as A. pose proof (dec_is_reference _ pre s Q2) as B.
   fold w1 in A. fold w2 in B. unfold body in A, B.
-  rewrite (failed_await_is_raise_ref _ i e H c top []) in A. rewrite A in B. inversion B.
+  rewrite (failed_await_is_raise_ref _ i e H c v_caller (fun c _ => top c) []) in A. rewrite A in B. inversion B.
   split; [apply rres_of_inj; assumption|reflexivity].
 Qed.
 
@@ -83,20 +86,22 @@ Fixpoint noyield (s : stmt) : bool :=
   | SSeq a b => noyield a && noyield b
   | STryExcept b _ h => noyield b && noyield h
   | STryFinally b f => noyield b && noyield f
+  | SWithVar _ b => noyield b
   | _ => true
   end.
 
 Fixpoint pure (t : itree) : Prop :=
   match t with Done _ => True | Eff _ t' => pure t' | _ => False end.
 
-Lemma denote_pure s : noyield s = true -> forall k, (forall c, pure (k c)) -> pure (denote s k).
+Lemma denote_pure s : noyield s = true -> forall v k, (forall c v', pure (k c v')) -> pure (denote s v k).
 Proof.
-  induction s as [|n|y|b IHb|n|e|a IHa b IHb|b IHb p h IHh|b IHb f IHf]; simpl; intros Hn k Hk; auto; try discriminate.
-  - apply andb_true_iff in Hn. destruct Hn as [Ha Hb]. apply IHa; auto. intros [| |e]; auto.
-  - apply andb_true_iff in Hn. destruct Hn as [Hb Hh]. apply IHb; auto. intros [| |e]; auto.
+  induction s as [|n|y|b IHb|n|e|a IHa b IHb|b IHb p h IHh|b IHb f IHf|n| |n b IHb];
+    simpl; intros Hn v k Hk; auto; try discriminate.
+  - apply andb_true_iff in Hn. destruct Hn as [Ha Hb]. apply IHa; auto. intros [| |e] v'; auto.
+  - apply andb_true_iff in Hn. destruct Hn as [Hb Hh]. apply IHb; auto. intros [| |e] v'; auto.
     destruct (matches p e); simpl; auto.
-  - apply andb_true_iff in Hn. destruct Hn as [Hb Hf]. apply IHb; auto. intros c. apply IHf; auto.
-    intros [| |e]; auto.
+  - apply andb_true_iff in Hn. destruct Hn as [Hb Hf]. apply IHb; auto. intros c v'. apply IHf; auto.
+    intros [| |e] v''; auto.
 Qed.
 
 Lemma rfirst_pure t : pure t -> forall w,
@@ -117,7 +122,7 @@ Theorem fast_path p pre :
   exists o, status_of w = StSet o /\ ref (mkenv pre []) (body p) [] = (w_trace w, RFin o).
 Proof.
   intros Hn w.
-  assert (Hp : pure (body p)) by (apply denote_pure; [exact Hn|intros [| |e]; exact I]).
+  assert (Hp : pure (body p)) by (apply denote_pure; [exact Hn|intros [| |e] v'; exact I]).
   destruct (rfirst_pure _ Hp (set_dres DPending (w0 (mkenv pre [])))) as [A [B [C [o D]]]].
   fold (start_dec p (mkenv pre [])) in A, B, C, D. fold w in A, B, C, D.
   split; [exact A|]. split; [exact B|]. split; [exact C|].
